@@ -68,6 +68,21 @@ type c18Cfg struct {
 	Via     string   `json:"via"`  // "json" | "track_queries"
 	URIPred bool     `json:"uriPred,omitempty"`
 	Batch   int      `json:"batch"`
+	// Mirror (one-hop paths, JSON declaration): a second declared dependency on the same dataset with the
+	// same predicate followed in the other direction (dep entities point at main entities AND main
+	// entities point at dep entities through one predicate)
+	Mirror bool `json:"mirror,omitempty"`
+}
+
+// hops the entity generator has to provide references for
+func (c c18Cfg) allHops() []c18Hop {
+	out := append([]c18Hop{}, c.Hops...)
+	if c.Mirror {
+		m := c.Hops[0]
+		m.Inverse = !m.Inverse
+		out = append(out, m)
+	}
+	return out
 }
 
 type c18Dep struct {
@@ -89,6 +104,9 @@ func (c c18Cfg) path() []string {
 // with the remaining joins.
 func (c c18Cfg) deps() []c18Dep {
 	out := []c18Dep{{DS: "dep", Joins: c.Hops}}
+	if c.Mirror {
+		out = append(out, c18Dep{DS: "dep", Joins: c.allHops()[1:]})
+	}
 	for i, h := range c.Hops {
 		if h.DS != "main" {
 			out = append(out, c18Dep{DS: h.DS, Joins: c.Hops[i+1:]})
@@ -106,6 +124,9 @@ func c18GenCfg(t *rapid.T, p []string) c18Cfg {
 	}
 	c.Via = rapid.SampledFrom([]string{"json", "json", "track_queries"}).Draw(t, "via")
 	c.URIPred = rapid.IntRange(0, 3).Draw(t, "uriPred") == 0
+	if n == 1 && c.Via == "json" && rapid.IntRange(0, 2).Draw(t, "mirror") == 0 {
+		c.Mirror = true
+	}
 	return c
 }
 
@@ -129,7 +150,12 @@ func (c c18Cfg) jobJSON(p []string) string {
 		for _, h := range c.Hops {
 			joins = append(joins, map[string]any{"dataset": h.DS, "predicate": c.predName(p, h.Pred), "inverse": h.Inverse})
 		}
-		src["Dependencies"] = []any{map[string]any{"dataset": "dep", "joins": joins}}
+		deps := []any{map[string]any{"dataset": "dep", "joins": joins}}
+		if c.Mirror {
+			h := c.allHops()[1]
+			deps = append(deps, map[string]any{"dataset": "dep", "joins": []any{map[string]any{"dataset": h.DS, "predicate": c.predName(p, h.Pred), "inverse": h.Inverse}}})
+		}
+		src["Dependencies"] = deps
 	} else {
 		// track_queries registers the path from the main dataset outwards, in
 		// query direction: the reverse of the join list, each direction flipped.
@@ -162,7 +188,10 @@ func c18IDs(p []string, ds string) []string {
 func c18GenEnt(t *rapid.T, p []string, cfg c18Cfg, ds string) *kit.Ent {
 	e := &kit.Ent{ID: rapid.SampledFrom(c18IDs(p, ds)).Draw(t, "id"), Props: map[string]any{p[0] + ":v": rapid.IntRange(0, 2).Draw(t, "v")}, Refs: map[string]any{}}
 	path := cfg.path()
-	for i, h := range cfg.Hops {
+	for i, h := range cfg.allHops() {
+		if i >= len(cfg.Hops) {
+			i = 0 // the mirrored hop leaves the dependency dataset, like the first
+		}
 		holder, target := path[i], h.DS
 		if h.Inverse {
 			holder, target = h.DS, path[i]
@@ -607,6 +636,9 @@ func (c *c18M) classes() []string {
 	c.cls[fmt.Sprintf("hops:%d", len(c.cfg.Hops))] = true
 	c.cls["dirs:"+dirs] = true
 	c.cls["via:"+c.cfg.Via] = true
+	if c.cfg.Mirror {
+		c.cls["mirrored-dependency"] = true
+	}
 	var out []string
 	for k := range c.cls {
 		out = append(out, k)
@@ -632,6 +664,12 @@ func TestVerif_C18(t *testing.T) {
 				failAt := 0
 				if rapid.IntRange(0, 2).Draw(t, "fault") == 0 {
 					failAt = rapid.IntRange(1, 4).Draw(t, "failAt")
+				}
+				if failAt > 0 && cfg.Mirror && kit.Known("F30") {
+					// known finding F30 (input shape: two declared dependencies on one dataset and a sink
+					// failure in the phase): the dependencies share one token
+					kit.S().Exclude("F30")
+					failAt = 0
 				}
 				if rapid.IntRange(0, 3).Draw(t, "midWrite") == 0 {
 					path := cfg.path()
@@ -698,4 +736,54 @@ func TestVerifProbe_F24(t *testing.T) {
 	c.sync(0)
 	c.write(c18Op{K: "write", DS: "dep", Ents: []*kit.Ent{{ID: d1, Props: none, Refs: none}, {ID: d0, Props: none, Refs: none}}})
 	c.sync(0)
+}
+
+// F29 (fixed): with two declared dependencies on the same dataset the removed-link
+// lookup of the second one used the dataset token the first one had already
+// advanced, i.e. the time of the very change that removed the link.
+func TestVerifProbe_F29(t *testing.T) {
+	defer kit.CleanupScratch()
+	h := newVJHub(vjOpts{})
+	defer h.close()
+	p := h.P[0]
+	// first declared dependency: main entities point at dep entities (inverse); the mirrored second
+	// one: dep entities point at main entities (first hop outgoing, removed-link lookup applies)
+	cfg := c18Cfg{Hops: []c18Hop{{DS: "main", Pred: p + ":j0", Inverse: true}}, Via: "json", Batch: 3, Mirror: true}
+	c := newC18M(t, h, cfg)
+	e := func(id string, v int, refs map[string]any) *kit.Ent {
+		if refs == nil {
+			refs = map[string]any{}
+		}
+		return &kit.Ent{ID: p + ":" + id, Props: map[string]any{p + ":v": v}, Refs: refs}
+	}
+	c.write(c18Op{K: "write", DS: "main", Ents: []*kit.Ent{e("m0", 0, nil), e("m1", 0, nil)}})
+	c.write(c18Op{K: "write", DS: "dep", Ents: []*kit.Ent{e("d2", 0, map[string]any{p + ":j0": p + ":m0"})}})
+	c.sync(0)
+	c.write(c18Op{K: "write", DS: "dep", Ents: []*kit.Ent{e("d2", 1, nil)}}) // the link d2 -> m0 is removed
+	c.sync(0)                                                                // m0 (as linked at the previous run) must be emitted
+}
+
+// F30 (known): two declared dependencies on one dataset share that dataset's
+// token. The token is persisted with the batch the first dependency delivers;
+// when the batch of the second one is then refused by the sink, the following
+// runs find no change left in the dataset and never emit what the second
+// dependency had found.
+func TestVerifProbe_F30(t *testing.T) {
+	defer kit.CleanupScratch()
+	h := newVJHub(vjOpts{})
+	defer h.close()
+	p := h.P[0]
+	cfg := c18Cfg{Hops: []c18Hop{{DS: "main", Pred: p + ":j0", Inverse: false}}, Via: "json", Batch: 2, Mirror: true}
+	c := newC18M(t, h, cfg)
+	e := func(id string, v int, refs map[string]any) *kit.Ent {
+		if refs == nil {
+			refs = map[string]any{}
+		}
+		return &kit.Ent{ID: p + ":" + id, Props: map[string]any{p + ":v": v}, Refs: refs}
+	}
+	c.write(c18Op{K: "write", DS: "main", Ents: []*kit.Ent{e("m0", 0, map[string]any{p + ":j0": []any{p + ":d2"}}), e("m1", 0, nil)}})
+	c.write(c18Op{K: "write", DS: "dep", Ents: []*kit.Ent{e("d2", 0, map[string]any{p + ":j0": []any{p + ":m1"}})}})
+	c.sync(0)
+	c.write(c18Op{K: "write", DS: "dep", Ents: []*kit.Ent{e("d2", 1, nil)}})
+	c.sync(2) // delivery 1: m1 (removed link, first dependency); delivery 2: m0 (second dependency) is refused once
 }
